@@ -288,6 +288,12 @@ struct Extractor {
       O << ",\"v\":" << EC->getInitVal().getExtValue();
     } else if (auto *V = dyn_cast<VarDecl>(D)) {
       if (!V->isLocalVarDecl() && !isa<ParmVarDecl>(V)) { O << ",\"q\":"; jstr(O, plainQual(V)); }
+      // value of constant integral variables (static const members, constexpr locals)
+      if (V->getType().isConstQualified() && V->getType()->isIntegralOrEnumerationType() && !isa<ParmVarDecl>(V)) {
+        const Expr *I = V->getAnyInitializer();
+        Expr::EvalResult Rr;
+        if (I && !I->isValueDependent() && I->EvaluateAsInt(Rr, C)) O << ",\"v\":" << Rr.Val.getInt().getExtValue();
+      }
     }
   }
   std::string fullName(const NamedDecl *D) {
